@@ -50,8 +50,11 @@ def build_harness(bins=None):
     return time.time() - t0
 
 
-def run_tlc(module, cfg, tag, workers=None, extra=None, env=None, timeout=1800, simulate=None, depth_first=False):
-    """run TLC in spec/; returns dict(out, states, distinct, depth, ok, violated, coverage)"""
+def run_tlc(module, cfg, tag, workers=None, extra=None, env=None, timeout=1800, simulate=None, depth_first=False,
+            keep_tags=("REPLAY", "CEX"), max_keep=20000):
+    """run TLC in spec/; stdout goes to a file and is streamed: lines printed by
+    PrintT(<<"TAG", json>>) for TAG in keep_tags are reservoir-sampled (at most max_keep per
+    tag, seeded) into r["printed"][TAG] as raw strings, everything else is kept as r["out"]."""
     meta = workdir("tlc_" + tag)
     jopts = "-Xss1g"
     if depth_first:
@@ -60,16 +63,44 @@ def run_tlc(module, cfg, tag, workers=None, extra=None, env=None, timeout=1800, 
     e["JAVA_TOOL_OPTIONS"] = jopts
     if env:
         e.update(env)
-    cmd = ["timeout", str(timeout), "tlc", "-workers", str(workers or MC_WORKERS), "-metadir", meta, "-cleanup",
+    cmd = ["timeout", "-k", "10", str(timeout), "tlc", "-workers", str(workers or MC_WORKERS), "-metadir", meta, "-cleanup",
            "-noGenerateSpecTE", "-config", cfg]
     if simulate:
         cmd += ["-simulate", simulate]
     cmd += (extra or []) + [module]
     t0 = time.time()
-    p = subprocess.run(cmd, cwd=SPEC, env=e, stdout=subprocess.PIPE, stderr=subprocess.STDOUT, text=True)
-    out = p.stdout
+    outf = os.path.join(WORK, "tlc_%s.out" % tag)
+    with open(outf, "w") as f:
+        p = subprocess.run(cmd, cwd=SPEC, env=e, stdout=f, stderr=subprocess.STDOUT, text=True)
     shutil.rmtree(meta, ignore_errors=True)
-    r = {"out": out, "rc": p.returncode, "wall_s": time.time() - t0}
+    rnd = random.Random(seed())
+    printed = {t: [] for t in keep_tags}
+    counts = {t: 0 for t in keep_tags}
+    rest = []
+    prefixes = {t: '<<"%s", ' % t for t in keep_tags}
+    with open(outf, errors="replace") as f:
+        for line in f:
+            hit = False
+            for t, pre in prefixes.items():
+                if line.startswith(pre):
+                    hit = True
+                    counts[t] += 1
+                    lst = printed[t]
+                    if len(lst) < max_keep:
+                        lst.append(line)
+                    else:
+                        j = rnd.randrange(counts[t])
+                        if j < max_keep:
+                            lst[j] = line
+                    break
+            if not hit and len(rest) < 20000:
+                rest.append(line)
+    try:
+        os.remove(outf)
+    except OSError:
+        pass
+    out = "".join(rest)
+    r = {"out": out, "rc": p.returncode, "wall_s": time.time() - t0, "printed": printed, "printed_counts": counts}
     m = re.search(r"(\d+) states generated, (\d+) distinct states found", out)
     r["states"] = int(m.group(2)) if m else 0
     r["transitions"] = int(m.group(1)) if m else 0
@@ -78,12 +109,12 @@ def run_tlc(module, cfg, tag, workers=None, extra=None, env=None, timeout=1800, 
     r["completed"] = "Model checking completed" in out
     r["violated"] = re.findall(r"Invariant (\w+) is violated|Action property (\w+) is violated|property (\w+) is violated", out)
     r["error"] = ("Error:" in out and not r["violated"]) or p.returncode in (124, 137)
-    # per-action coverage lines: <Action line .. of module M>: distinct:total
-    cov = {}
-    for m in re.finditer(r"^<(\w+) line \d+, col \d+ to line \d+, col \d+ of module (\w+)>: (\d+):(\d+)", out, re.M):
-        cov[m.group(1)] = cov.get(m.group(1), 0) + int(m.group(4))
-    r["coverage"] = cov
+    r["coverage"] = {}
     return r
+
+
+def parse_printed(lines, tag):
+    return tlc_printed("".join(lines), tag)
 
 
 def tlc_printed(out, tag):
@@ -121,7 +152,7 @@ def replay(binary, inp_obj, tag, extra_args=None, timeout=3600):
 
 def validate_trace(module, cfg, ndjson, tag, timeout=1800, cfg_fallback=None):
     """run the trace spec over an ndjson file; returns (viols, nonconfs, consumed_ok, raw)"""
-    r = run_tlc(module, cfg, "tv_" + tag, workers=1, env={"TRACE": ndjson}, timeout=timeout, depth_first=True)
+    r = run_tlc(module, cfg, "tv_" + tag, workers=1, env={"TRACE": ndjson}, timeout=timeout, depth_first=True, keep_tags=())
     out = r["out"]
     consumed = tlc_consumed(out)
     m_ok = True
@@ -129,7 +160,7 @@ def validate_trace(module, cfg, ndjson, tag, timeout=1800, cfg_fallback=None):
         # Layer M evaluation aborted TLC (model operator undefined on an observed state):
         # that is a nonconformance of its own; re-judge with Layer P alone
         m_ok = False
-        r = run_tlc(module, cfg_fallback, "tvp_" + tag, workers=1, env={"TRACE": ndjson}, timeout=timeout, depth_first=True)
+        r = run_tlc(module, cfg_fallback, "tvp_" + tag, workers=1, env={"TRACE": ndjson}, timeout=timeout, depth_first=True, keep_tags=())
         out2 = r["out"]
         consumed = tlc_consumed(out2)
         viols = tlc_printed(out2, "VIOL")
